@@ -338,7 +338,61 @@ func (e *lxEnv) mentionsPairedLeft(n ast.Node) bool {
 var _ = constant.MakeBool
 
 // steps parses a statement list into comparison steps.
+// lxDesugar rewrites a tagless switch whose every case ends in a return into
+// the equivalent chain of ifs (the default clause becomes the tail).
+func lxDesugar(list []ast.Stmt) []ast.Stmt {
+	var out []ast.Stmt
+	for idx, s := range list {
+		sw, ok := s.(*ast.SwitchStmt)
+		if !ok || sw.Tag != nil || sw.Init != nil {
+			out = append(out, s)
+			continue
+		}
+		var ifs []ast.Stmt
+		var def []ast.Stmt
+		good := true
+		for _, cc := range sw.Body.List {
+			cl := cc.(*ast.CaseClause)
+			if len(cl.Body) == 0 {
+				good = false
+				break
+			}
+			if _, isRet := cl.Body[len(cl.Body)-1].(*ast.ReturnStmt); !isRet {
+				good = false
+				break
+			}
+			if cl.List == nil {
+				def = cl.Body
+				continue
+			}
+			var cond ast.Expr
+			for _, c := range cl.List {
+				if cond == nil {
+					cond = c
+				} else {
+					cond = &ast.BinaryExpr{X: cond, Op: token.LOR, Y: c, OpPos: c.Pos()}
+				}
+			}
+			ifs = append(ifs, &ast.IfStmt{If: cl.Pos(), Cond: cond, Body: &ast.BlockStmt{Lbrace: cl.Colon, List: cl.Body, Rbrace: cl.End()}})
+		}
+		// a default in the middle keeps its position only if it is last in evaluation order: Go evaluates cases top to bottom and default last, so moving it to the tail is exact
+		if !good {
+			out = append(out, s)
+			continue
+		}
+		out = append(out, ifs...)
+		if def != nil {
+			// what follows a switch with a returning default is unreachable
+			out = append(out, def...)
+			_ = idx
+			return out
+		}
+	}
+	return out
+}
+
 func (e *lxEnv) steps(list []ast.Stmt, loop string, res *lxResult) bool {
+	list = lxDesugar(list)
 	i := 0
 	for i < len(list) {
 		s := list[i]
@@ -828,25 +882,13 @@ func runLX(c *Ctx) (obls []Obl) {
 	return
 }
 
-// lxOrder: package-main count first, then the per-location counts in
-// ascending constant order with all of GoMod, GOPATH, GoPkg before Stdlib,
-// each "more sorts first"; unknown last.
-func lxOrder(c *Ctx, a *flAgg, fd *ast.FuncDecl, res *lxResult) {
-	if fd == nil || res == nil || !res.ok {
-		a.und("LX-order", "Stack.less/keys", "Stack.less was not recognised as a chain", token.NoPos)
-		return
-	}
-	pkg := c.L.tpkg("stack")
-	cv := func(name string) int64 {
-		if k, ok := pkg.Types.Scope().Lookup(name).(*types.Const); ok {
-			v, _ := constant.Int64Val(k.Val())
-			return v
-		}
-		return -1
-	}
-	// what do the counters count? from the preamble loops
+
+// lxClassifyCounts: which locals of a body count frames per Location
+// ("loc": x[elem.Location]++ in a range loop) or frames of package main
+// ("main": if elem.Func.IsPkgMain { x++ }).
+func lxClassifyCounts(body *ast.BlockStmt) map[string]string {
 	counts := map[string]string{} // local -> "main" | "loc"
-	ast.Inspect(fd.Body, func(n ast.Node) bool {
+	ast.Inspect(body, func(n ast.Node) bool {
 		rs, ok := n.(*ast.RangeStmt)
 		if !ok {
 			return true
@@ -879,6 +921,83 @@ func lxOrder(c *Ctx, a *flAgg, fd *ast.FuncDecl, res *lxResult) {
 		}
 		return true
 	})
+	return counts
+}
+
+// lxOrder: package-main count first, then the per-location counts in
+// ascending constant order with all of GoMod, GOPATH, GoPkg before Stdlib,
+// each "more sorts first"; unknown last.
+func lxOrder(c *Ctx, a *flAgg, fd *ast.FuncDecl, res *lxResult) {
+	if fd == nil || res == nil || !res.ok {
+		a.und("LX-order", "Stack.less/keys", "Stack.less was not recognised as a chain", token.NoPos)
+		return
+	}
+	pkg := c.L.tpkg("stack")
+	cv := func(name string) int64 {
+		if k, ok := pkg.Types.Scope().Lookup(name).(*types.Const); ok {
+			v, _ := constant.Int64Val(k.Val())
+			return v
+		}
+		return -1
+	}
+	// what do the counters count? from the preamble loops, or from the helper
+	// the loops were extracted to (lLoc, lMain := countLocations(s.Calls))
+	counts := lxClassifyCounts(fd.Body) // local -> "main" | "loc"
+	for _, st := range fd.Body.List {
+		as, ok := st.(*ast.AssignStmt)
+		if !ok || as.Tok != token.DEFINE || len(as.Rhs) != 1 {
+			continue
+		}
+		call, ok := as.Rhs[0].(*ast.CallExpr)
+		if !ok {
+			continue
+		}
+		id, ok := call.Fun.(*ast.Ident)
+		if !ok {
+			continue
+		}
+		fobj, ok := pkg.TypesInfo.Uses[id].(*types.Func)
+		if !ok {
+			continue
+		}
+		for _, f := range pkg.Syntax {
+			for _, d := range f.Decls {
+				hd, ok := d.(*ast.FuncDecl)
+				if !ok || hd.Body == nil || pkg.TypesInfo.Defs[hd.Name] != types.Object(fobj) {
+					continue
+				}
+				sub := lxClassifyCounts(hd.Body)
+				var names []string
+				if hd.Type.Results != nil {
+					for _, fl := range hd.Type.Results.List {
+						for _, n := range fl.Names {
+							names = append(names, n.Name)
+						}
+					}
+				}
+				if len(names) == 0 {
+					ast.Inspect(hd.Body, func(n ast.Node) bool {
+						if ret, ok := n.(*ast.ReturnStmt); ok {
+							names = nil
+							for _, r := range ret.Results {
+								if rid, ok := r.(*ast.Ident); ok {
+									names = append(names, rid.Name)
+								} else {
+									names = append(names, "")
+								}
+							}
+						}
+						return true
+					})
+				}
+				for i, l := range as.Lhs {
+					if lid, ok := l.(*ast.Ident); ok && i < len(names) && sub[names[i]] != "" {
+						counts[lid.Name] = sub[names[i]]
+					}
+				}
+			}
+		}
+	}
 	keys := res.keys
 	pos := fd.Pos()
 	if len(keys) < 3 {
